@@ -54,16 +54,24 @@ Qualifier QB : string = null, Scope(any), Flavor(EnableOverride, Restricted);
 Qualifier QC : string = null, Scope(any), Flavor(DisableOverride, ToSubclass);
 """
 
-_TEMPLATE = None
+NS_OTHER = "root/c12dflt"
+_TEMPLATE = {}
 
 
-def fresh():
-    global _TEMPLATE
-    if _TEMPLATE is None:
-        conn = pywbem_mock.FakedWBEMConnection(default_namespace=NS)
-        conn.compile_mof_string(QUALIFIER_MOF)
-        _TEMPLATE = conn
-    return copy.deepcopy(_TEMPLATE)
+def fresh(nsx=False):
+    """nsx: the forest lives in a namespace that is NOT the connection's
+    default namespace (every call names it explicitly)."""
+    if nsx not in _TEMPLATE:
+        if nsx:
+            conn = pywbem_mock.FakedWBEMConnection(default_namespace=NS_OTHER)
+            conn.add_namespace(NS)
+            conn.compile_mof_string(QUALIFIER_MOF, namespace=NS_OTHER)
+            conn.compile_mof_string(QUALIFIER_MOF, namespace=NS)
+        else:
+            conn = pywbem_mock.FakedWBEMConnection(default_namespace=NS)
+            conn.compile_mof_string(QUALIFIER_MOF)
+        _TEMPLATE[nsx] = conn
+    return copy.deepcopy(_TEMPLATE[nsx])
 
 
 # ----------------------------------------------------------------------------
@@ -453,7 +461,10 @@ class Driver:
         self.case_seed = case_seed if case_seed is not None else \
             rng.randrange(1 << 30)
         self.rng = random.Random(self.case_seed)
-        self.conn = conn or fresh()
+        # a quarter of the histories: forest outside the default namespace
+        self.nsx = conn is None and self.case_seed % 4 == 0
+        self.nskw = {"namespace": NS} if self.nsx else {}
+        self.conn = conn or fresh(self.nsx)
         self.events = []
         self.calls = []          # readable concrete calls (for replays)
         self.acalls = []         # abstract calls (replayable)
@@ -478,14 +489,17 @@ class Driver:
         ac = {"op": op, "via": via, "name": cid, "super": sup, "d": d,
               "obj": obj if via == "api" else 0}
         ev = dict(ac)
+        ev["nsx"] = self.nsx
         if via == "mof":
             ev["op"] = "Compile"    # creates or modifies: ClassModel decides
         text = "%s %s (concretisation failed)" % (op, cid)
         try:
             if via == "mof":
                 mof = build_mof(self.rng, cid, sup, d)
-                text = "compile_mof_string(%r)" % mof
-                self.conn.compile_mof_string(mof)
+                text = "compile_mof_string(%r%s)" % (
+                    mof, ", namespace=%r [default namespace: %r]" %
+                    (NS, NS_OTHER) if self.nsx else "")
+                self.conn.compile_mof_string(mof, **self.nskw)
             else:
                 if reuse:
                     cc = self.objs[obj]
@@ -497,9 +511,9 @@ class Driver:
                     op, "the client's object #%d again: " % obj
                     if reuse else "", cc.tomof().replace("\n", " "))
                 if op == "Create":
-                    self.conn.CreateClass(cc)
+                    self.conn.CreateClass(cc, **self.nskw)
                 else:
-                    self.conn.ModifyClass(cc)
+                    self.conn.ModifyClass(cc, **self.nskw)
             ev.update(OK)
         except Exception as exc:  # noqa: every outcome is an observation
             ev.update(_err(exc))
@@ -530,7 +544,7 @@ class Driver:
                            properties=[CIMProperty(ename(self.rng, "k"),
                                                    Uint32(key))])
         try:
-            self.conn.CreateInstance(inst)
+            self.conn.CreateInstance(inst, **self.nskw)
             ev["ok"] = True
         except Exception:  # noqa
             ev["ok"] = False
@@ -563,7 +577,7 @@ class Driver:
         ev = dict(ac)
         n = cname(self.rng, cid)
         try:
-            self.conn.DeleteClass(n)
+            self.conn.DeleteClass(n, **self.nskw)
             ev.update(ok=True, code=0)
         except Exception as exc:  # noqa
             e = _err(exc)
@@ -595,7 +609,7 @@ class Driver:
             cl = self.conn.GetClass(n, LocalOnly=FLAG[lo],
                                     IncludeQualifiers=FLAG[iq],
                                     IncludeClassOrigin=FLAG[ico],
-                                    PropertyList=cpl)
+                                    PropertyList=cpl, **self.nskw)
             ev.update(ok=True, code=0, cls=project_class(cl))
         except Exception as exc:  # noqa
             ev.update(ok=False, code=_err(exc)["code"],
@@ -616,7 +630,8 @@ class Driver:
         n = cname(self.rng, cid) if cid else None
         try:
             names = self.conn.EnumerateClassNames(ClassName=n,
-                                                  DeepInheritance=deep)
+                                                  DeepInheritance=deep,
+                                                  **self.nskw)
             ev.update(ok=True, code=0, names=[cid_of(x) for x in names])
         except Exception as exc:  # noqa
             ev.update(ok=False, code=_err(exc)["code"], names=[])
@@ -633,7 +648,8 @@ class Driver:
         try:
             cls = self.conn.EnumerateClasses(
                 ClassName=n, DeepInheritance=deep, LocalOnly=FLAG[lo],
-                IncludeQualifiers=FLAG[iq], IncludeClassOrigin=FLAG[ico])
+                IncludeQualifiers=FLAG[iq], IncludeClassOrigin=FLAG[ico],
+                **self.nskw)
             ev.update(ok=True, code=0,
                       classes=[project_class(c) for c in cls])
         except Exception as exc:  # noqa
@@ -651,9 +667,10 @@ class Driver:
         n = cname(self.rng, cid)
         try:
             if names_only:
-                paths = self.conn.EnumerateInstanceNames(n)
+                paths = self.conn.EnumerateInstanceNames(n, **self.nskw)
             else:
-                paths = [i.path for i in self.conn.EnumerateInstances(n)]
+                paths = [i.path for i in
+                         self.conn.EnumerateInstances(n, **self.nskw)]
             ev.update(ok=True, code=0, insts=self._inst_rows(paths))
         except Exception as exc:  # noqa
             ev.update(ok=False, code=_err(exc)["code"], insts=[])
@@ -792,12 +809,12 @@ def random_history(rng, nclasses=6, maxdepth=5, maxfan=4):
     most declarations acceptable (it never judges)."""
     forest = {}                 # cid -> (sup, exposes set, pars of m)
     calls = []
-    objs = []                   # [handle, cid, sup] of client objects
+    objs = []                   # [handle, cid, sup, d] of client objects
     nobj = [0]
 
-    def newobj(cid, sup):
+    def newobj(cid, sup, d):
         nobj[0] += 1
-        objs.append([nobj[0], cid, sup])
+        objs.append([nobj[0], cid, sup, d])
         return nobj[0]
 
     def mpars(sup, d):
@@ -840,7 +857,7 @@ def random_history(rng, nclasses=6, maxdepth=5, maxfan=4):
             d = rnd_decl(rng, exp, sup == "" or sup not in forest,
                          forest[sup][2] if sup in forest else "x")
             calls.append({"op": "Create", "name": cid, "super": sup, "d": d,
-                          "obj": newobj(cid, sup)})
+                          "obj": newobj(cid, sup, d)})
             if sup == "" or sup in forest:
                 # assume accepted when it looks acceptable
                 bad = any(d["el"][e]["present"] and e in exp and
@@ -864,7 +881,7 @@ def random_history(rng, nclasses=6, maxdepth=5, maxfan=4):
                 # substitutes the declaration the client put into it)
                 o = rng.choice(again)
                 calls.append({"op": "Modify", "name": cid, "super": sup,
-                              "d": EMPTY_DECL, "obj": o[0], "via": "api"})
+                              "d": o[3], "obj": o[0], "via": "api"})
                 continue
             d = rnd_decl(rng, exp, sup == "",
                          forest[sup][2] if sup in forest else "x")
@@ -873,9 +890,10 @@ def random_history(rng, nclasses=6, maxdepth=5, maxfan=4):
                 o = rng.choice(again)
                 calls.append({"op": "ClientEdit", "name": cid, "super": sup,
                               "d": d, "obj": o[0]})
+                o[3] = d
                 continue
             calls.append({"op": "Modify", "name": cid, "super": sup, "d": d,
-                          "obj": newobj(cid, sup)})
+                          "obj": newobj(cid, sup, d)})
             if not children(cid):
                 bad = any(d["el"][e]["present"] and e in exp and
                           not d["el"][e]["ovr"] for e in ELEMS)
@@ -944,7 +962,8 @@ def reuse_history(rng):
         calls.append({"op": "Create", "name": L, "super": R,
                       "d": EMPTY_DECL if rng.random() < 0.5 else leaf_decl(),
                       "obj": 2})
-    calls.append({"op": via_obj, "name": L, "super": R, "d": leaf_decl(),
+    hd = leaf_decl()
+    calls.append({"op": via_obj, "name": L, "super": R, "d": hd,
                   "obj": 3, "via": "api"})
     variant = rng.choice(["context", "context", "edit", "again", "editpass"])
     if variant == "context":
@@ -955,11 +974,12 @@ def reuse_history(rng):
             calls.append({"op": "Create", "name": L, "super": R,
                           "d": EMPTY_DECL, "obj": 5})
     if variant in ("edit", "editpass"):
+        hd = leaf_decl()
         calls.append({"op": "ClientEdit", "name": L, "super": R,
-                      "d": leaf_decl(), "obj": 3})
+                      "d": hd, "obj": 3})
     if variant != "edit":
         calls.append({"op": via_obj if variant == "context" else "Modify",
-                      "name": L, "super": R, "d": EMPTY_DECL, "obj": 3,
+                      "name": L, "super": R, "d": hd, "obj": 3,
                       "via": "api"})
     if rng.random() < 0.5:
         calls.append({"op": "Create", "name": X, "super": L,
